@@ -280,7 +280,8 @@ def _check(d1, d2, f3, quiet):
         hid = hidden(rel)
         in_scan = rel in scanned
         # the statement: excluded -> skipped however reached; hidden -> skipped when reached through a directory; analysed by scan -> checked
-        must_skip = excl or (hid and ARG != "file") or lang is None
+        scan_skipped_as_excluded = (not in_scan) and lang is not None and not hid      # what scan itself decided for this file
+        must_skip = excl or scan_skipped_as_excluded or (hid and ARG != "file") or lang is None
         must_check = in_scan
         if must_skip and must_check:
             bad.append("oracle-inconsistent")
